@@ -6,6 +6,7 @@ Prints a JSON summary; never leaves /repo modified."""
 import argparse
 import json
 import os
+VERIF_HOME = os.path.dirname(os.path.dirname(os.path.abspath(__file__)))   # the /verif tree this script belongs to (a snapshot works too)
 import shutil
 import subprocess
 import sys
@@ -69,7 +70,7 @@ def main():
             if rc != 0:
                 raise SystemExit("patch does not apply: " + out)
             for c in checks:
-                rc, out = sh(f"./check {c} --tier {a.tier}", cwd="/verif", env=dict(os.environ, VERIF_REPO=wt, VERIF_EVIDENCE_DIR=wt + "/.verif-evidence", VERIF_REPLAYS_DIR=wt + "/.verif-replays"), timeout=3000)
+                rc, out = sh(f"./check {c} --tier {a.tier}", cwd=VERIF_HOME, env=dict(os.environ, VERIF_REPO=wt, VERIF_EVIDENCE_DIR=wt + "/.verif-evidence", VERIF_REPLAYS_DIR=wt + "/.verif-replays"), timeout=3000)
                 lines = [ln for ln in out.splitlines() if ln.startswith(("VIOLATION", "KNOWN-FINDING", "MODEL-DRIFT", "OK ", "MACHINERY"))]
                 clauses = sorted({ln.split("clause=")[1].split()[0] for ln in lines if "clause=" in ln})
                 res["checks"][c] = {"exit": rc, "violation": rc == 1, "clauses": clauses, "drift": sum(1 for ln in lines if ln.startswith("MODEL-DRIFT")),
@@ -89,7 +90,7 @@ def main():
     try:
         for c in checks:
             scratch = tempfile.mkdtemp(prefix="seedev-")
-            rc, out = sh(f"./check {c} --tier {a.tier}", cwd="/verif", timeout=3000,
+            rc, out = sh(f"./check {c} --tier {a.tier}", cwd=VERIF_HOME, timeout=3000,
                          env=dict(os.environ, VERIF_EVIDENCE_DIR=scratch + "/evidence", VERIF_REPLAYS_DIR=scratch + "/replays"))
             shutil.rmtree(scratch, ignore_errors=True)
             lines = [ln for ln in out.splitlines() if ln.startswith(("VIOLATION", "KNOWN-FINDING", "MODEL-DRIFT", "OK ", "MACHINERY"))]
